@@ -70,4 +70,25 @@ theorem OnlyCursorMoved.dirty {s s' : Screen} (h : OnlyCursorMoved s s') : s'.di
   unfold OnlyCursorMoved at h
   rw [h]
 
+/-- bounded quantification over the cells of the grid (executable) -/
+def allCellsB (lines columns : Nat) (p : Nat → Nat → Bool) : Bool :=
+  (List.range lines).all fun y => (List.range columns).all fun x => p y x
+
+theorem allCellsB_iff (lines columns : Nat) (p : Nat → Nat → Bool) :
+    allCellsB lines columns p = true ↔ ∀ y x, y < lines → x < columns → p y x = true := by
+  simp only [allCellsB, List.all_eq_true, List.mem_range]
+  constructor
+  · intro h y x hy hx; exact h y hy x hx
+  · intro h y hy x hx; exact h y x hy hx
+
+/-- cursor (position, rendition, visibility) unchanged and `SameSettings` -/
+def SameCursorSettings (s s' : Screen) : Prop := s'.cursor = s.cursor ∧ SameSettings s s'
+
+def sameCursorSettingsB (cands : List Nat) (s s' : Screen) : Bool :=
+  decide (s'.cursor = s.cursor) && sameSettingsB cands s s'
+
+theorem sameCursorSettingsB_of {cands : List Nat} {s s' : Screen} (h : SameCursorSettings s s') :
+    sameCursorSettingsB cands s s' = true := by
+  simp [sameCursorSettingsB, h.1, sameSettingsB_of h.2]
+
 end Memterm
